@@ -59,6 +59,13 @@ type treeBuilder struct {
 	subs       []int
 }
 
+// addAs: like add, for an act other than mknode that creates exactly one node.
+func (b *treeBuilder) addAs(op string, parent int, kind string, a TAct) int {
+	id := b.add(parent, kind, a)
+	b.sc.Acts[len(b.sc.Acts)-1].Op = op
+	return id
+}
+
 func (b *treeBuilder) add(parent int, kind string, a TAct) int {
 	a.Op = "mknode"
 	a.Node = parent
@@ -181,6 +188,18 @@ func genC05(g GenCtx) interface{} {
 	}
 	if !marathon && rng.Intn(6) == 0 {
 		sc.Acts = append(sc.Acts, TAct{Op: "crowd", Ms: 2 + rng.Intn(15)})
+	}
+	if !marathon && rng.Intn(4) == 0 {
+		// the controller is closed with a burst still on its way through the tree
+		// (which has at least one subscriber two hops further down than the witness)
+		c1 := b.add(-1, "clone", TAct{})
+		c2 := b.add(c1, "clone", TAct{})
+		b.add(c2, "sub", TAct{Reader: "eager"})
+		sc.Acts = append(sc.Acts, TAct{Op: "settle"})
+		for i := 1 + rng.Intn(20); i > 0; i-- {
+			sc.Acts = append(sc.Acts, writeAct(rng, nkeys))
+		}
+		sc.Acts = append(sc.Acts, TAct{Op: "close", Node: -1})
 	}
 	sc.Sim.Strategy.StallPermille = 0
 	return sc
@@ -794,6 +813,14 @@ func genC16(g GenCtx) interface{} {
 			}
 		case r < 12 && len(mons) < 5:
 			p := b.randParent(rng, 3)
+			if rng.Intn(3) == 0 {
+				// one Handler value on two monitors at once (plus a third monitor,
+				// a node like any other, as their witness)
+				sc.Acts = append(sc.Acts, TAct{Op: "settle"})
+				inflight = 0
+				mons = append(mons, b.addAs("shared-monitors", p, "monitor", TAct{Ms: pickInt(rng, 1, 5, 30)}))
+				break
+			}
 			mons = append(mons, b.add(p, "monitor", TAct{HandlerMs: pickInt(rng, 0, 0, 5)}))
 		default:
 			if !released {
